@@ -12,11 +12,11 @@ TimeoutError / OSError, m-th reconnect); the client's mutex is instrumented, so 
 acquire, write(timeout, result), read(k, timeout), reconnect(result), release with virtual timestamps.  The client
 timeout may be `None` or 0 there (`timeout if timeout else 0`, `_read`'s `timeout is None and self.timeout`).
 
-Whether a difference falsifies the *property* is decided by the specification `Spec/ClientSpec.lean`: by the
-theorems `implied_iff_run`, `writes_eq`, `reads_le`, `elapsed_le`, `first_final` and `pending_no_write` of
-`Proofs/C04.lean` an observed behaviour satisfies the specification iff its outcome and number of transmissions
-equal the model's, it stays within the proved bounds, it never reads past a final reply and never transmits
-right after a responsePending.  Every other difference (sleep lengths, reconnects, timeouts passed) is a broken
+Whether a difference falsifies the *property* is decided by the specification `Spec/ClientSpec.lean` (widened cases:
+`Spec/ClientIOSpec.lean`): by the theorems `implied_iff_run`, `writes_eq`, `reads_le`, `elapsed_le`, `first_final` and
+`pending_no_write` of `Proofs/C04.lean` (widened: the same names with `_io`) an observed behaviour satisfies the
+specification iff its outcome and number of write attempts equal the model's, it stays within the proved bounds, it
+never reads past a final reply and never transmits right after a responsePending.  Every other difference (sleep lengths, reconnects, timeouts passed) is a broken
 tie and not a failing input.
 """
 import asyncio
@@ -36,8 +36,20 @@ ASSUMPTIONS = [
     "received, so it is returned and not retransmitted); specification and code agree on this reading",
     "a read that does not time out takes a fixed latency smaller than both the request timeout and the 0.5 s poll "
     "interval; a reply arriving during a backoff sleep is represented by the next read returning it immediately",
-    "write() and reconnect() of the transport succeed (faults are injected at read(), as the property's alphabet says)",
-    "max_retry >= 0 and timeout > 0 (client attribute and per-request override)",
+    "reading of the property for faults outside its alphabet: a TimeoutError / ConnectionError raised by write() is a "
+    "retry-worthy event of the same kind as the corresponding read fault (one write attempt per event, failed attempts "
+    "counted, no read in that attempt); a failing reconnect_unsafe() (ConnectionError / TimeoutError / other OSError) ends "
+    "the request with that exception - the property lists no reconnect failure and names no error for it, so the "
+    "specification names the outcome reconnectFailed(m, kind) and does not count it as a violation; the harness "
+    "identifies it by the raised exception object (or a re-raise chained to it) and compares its kind",
+    "write() that does not time out and reconnect_unsafe() take no virtual time; transport.reconnect(None) itself "
+    "(close, connect, the ConnectionError it re-raises) is C08's subject and is represented by its result only",
+    "max_retry >= 0 (range(max_retry + 1) is empty below that and the initial MissingResponse would surface); the "
+    "effective timeout may be None or 0: a transport call that got no deadline and still raises TimeoutError does so on "
+    "its own account (0 ms); a transport that blocks forever without a deadline is outside the model; with timeout 0 "
+    "only replies that are already there (latency 0) are delivered",
+    "asyncio.Lock is released by `async with` whatever leaves the block (contract of asyncio; observed on an "
+    "instrumented lock in every widened case)",
 ]
 
 ALPHA = "tcebpmfnP"  # timeout connErr empty busy pending mismatch malformed negFinal posFinal
@@ -337,8 +349,10 @@ async def impl_case(case):
         try:
             resp = await client.request(req, cfg)
         except Exception as e:
-            if st.rc_raised is not None and e is st.rc_raised:
-                raise _RcFailed() from None
+            if st.rc_raised is not None and isinstance(e, OSError) and _in_chain(e, st.rc_raised):
+                # the exception of the failed reconnect (or a re-raise of it) ends the request; its kind is what counts
+                kind = "C" if isinstance(e, ConnectionError) else "T" if isinstance(e, TimeoutError) else "O"
+                raise _RcFailed(kind) from None
             if st.w_raised is not None and e is st.w_raised:
                 raise _WEscaped(type(e).__name__) from None
             raise
@@ -350,8 +364,8 @@ async def impl_case(case):
             j = next((j for j in range(st.k) if st.script.at(j) not in "tce" and st.pdu(j) == got), None)
             out = f"reply:stale{j}" if j is not None else "reply:unknown"
             detail = got.hex()
-    except _RcFailed:
-        out = f"rcfail:{st.rc_fail[0]}:{st.rc_fail[1]}"
+    except _RcFailed as e:
+        out = f"rcfail:{st.rc_fail[0]}:{e.args[0]}"
     except _WEscaped as e:
         out = f"escaped:w{st.j - 1}"
         detail = str(e)
@@ -415,6 +429,16 @@ async def impl_case(case):
 
 class _RcFailed(Exception):
     pass
+
+
+def _in_chain(e, target):
+    seen = 0
+    while e is not None and seen < 8:
+        if e is target:
+            return True
+        e = e.__cause__ or e.__context__
+        seen += 1
+    return False
 
 
 class _WEscaped(Exception):
@@ -532,6 +556,8 @@ def parse_model(line):
 
 
 def out_class(o):
+    if o.startswith("rcfail"):
+        return "rcfail:" + o.split(":")[-1]
     return o.split(":")[0] if not o.startswith("missing") else o
 
 
@@ -727,10 +753,11 @@ def key_of(case, obs, mod, verdict):
     ctx_txt = context_of(case, obs["reads"] if obs["reads"] >= 0 else script_len(parse_script(case["script"])))
     kind = "spec" if verdict[0] else "tie"
     if is_x(case):
-        kinds = obs["kinds"] or mod["kinds"]
+        nw = max(obs["kinds"].count("w"), mod["kinds"].count("w"))
+        nc = max(obs["kinds"].count("c"), mod["kinds"].count("c"))
         extra = "" if tmo else f":timeout={tmo}"
-        return (f"client-io:{kind}:writes={consumed(case, 'w', kinds.count('w'))}:events={ctx_txt}:"
-                f"reconnects={consumed(case, 'rc', kinds.count('c'))}:max_retry={mr}{extra}:"
+        return (f"client-io:{kind}:writes={consumed(case, 'w', nw)}:events={ctx_txt}:"
+                f"reconnects={consumed(case, 'rc', nc)}:max_retry={mr}{extra}:"
                 f"impl={out_class(obs['out'])}:implied={out_class(mod['out'])}")
     return f"client-loop:{kind}:events={ctx_txt}:max_retry={mr}:impl={out_class(obs['out'])}:implied={out_class(mod['out'])}"
 
@@ -1168,13 +1195,23 @@ MANIFEST = {
                    "transmission, soundness and uniqueness of the outcome w.r.t. the separately written relation "
                    "Spec/ClientSpec.Implied, no final reply is ever read past, backoff sleeps are retry_wait*2^i. Literal limits "
                    "(120 pendings, 0.5 s poll, 20 s floor, 0.2 s backoff) regenerated from client.py with an agreement theorem. "
+                   "Widened model Model/ClientIO (UDSClient.request() = mutex around request_unsafe; transport.request_unsafe = "
+                   "write then read; write() may raise TimeoutError / ConnectionError, reconnect_unsafe() may raise; effective "
+                   "max_retry / timeout incl. None and 0; _read) over scripts of three infinite streams, with the same theorems "
+                   "(`*_io`) against Spec/ClientIOSpec.ImpliedX (22 rules), the shape of the call sequence (a failed write is "
+                   "never followed by a read of that attempt, a failed reconnect is the last action), the deadlines every call "
+                   "gets, and conservativity (without write / reconnect faults the widened run is the old run). "
                    "Tied to the code by running the real UDSClient.request() on a scripted transport under virtual time: every "
-                   "event script up to length 6 (quick) / 8 (thorough) x max_retry 0..3, configuration overrides, long runs "
-                   "across the pending and silence limits; call sequence, timestamps, outcome and __cause__ compared."),
-    "level_note": ("Trusted: Lean kernel (propext, Quot.sound, Classical.choice), asyncio timeouts/sleep under the virtual-time "
-                   "loop, the fake transport, the harness. Faults are injected at read(); write()/reconnect() failures, replies "
-                   "arriving during a backoff sleep and wall-clock effects are outside the model. busyRepeatRequest after "
-                   "responsePending is read as a final reply."),
+                   "read-event script up to length 6 (quick) / 8 (thorough) x max_retry 0..3, configuration overrides, long runs "
+                   "across the pending and silence limits; every widened script (write / read / reconnect decisions) up to 10 "
+                   "(quick) / 12 (thorough) decisions x max_retry 0..3 and up to 8 / 9 x 8 configurations (timeout None / 0, "
+                   "overrides); call sequence incl. mutex acquire / release, deadlines, timestamps, outcome and __cause__ compared."),
+    "level_note": ("Trusted: Lean kernel (propext, Quot.sound, Classical.choice), asyncio timeouts/sleep/Lock under the "
+                   "virtual-time loop, the fake transport, the harness. A failing reconnect_unsafe() is outside the property's "
+                   "alphabet: its exception ends the request and the specification names that outcome (reconnectFailed) without "
+                   "calling it a violation. transport.reconnect() internals (C08), replies arriving during a backoff sleep, "
+                   "negative max_retry, a transport that blocks forever when given no deadline, and wall-clock effects are "
+                   "outside the model. busyRepeatRequest after responsePending is read as a final reply."),
     "technique": "Lean 4 proof (well-founded recursion, functional induction, inductive specification) + differential correspondence under virtual time",
     "design_ref": "DESIGN.md section 7, C04",
 }
